@@ -376,7 +376,7 @@ def r4_1(ctx, R, otypes):
                 continue
             for rb, e in returned_exprs(ctx, b):
                 if e[0] == "agg" and e[1].startswith(path + "::"):
-                    ops = dict(zip(e[3], e[2]))
+                    ops = __import__('lib_inter').flat_ops(ctx, e)
                     for v_ in list(ops.values()):
                         # counters kept in a nested private struct: its fields count as the collection's
                         if v_[0] == "agg" and len(v_) > 3 and v_[1].split("::")[0] in path and v_[1].rsplit("::", 1)[0] in ctx.facts.adts:
@@ -1021,7 +1021,7 @@ def r4_5(ctx, R):
     ctx.need(fb is not None, "FROMITER: FromIterator for the slot map")
     for rb, e in returned_exprs(ctx, fb):
         if e[0] == "agg" and e[1].startswith(sm + "::"):
-            ops = dict(zip(e[3], e[2]))
+            ops = __import__('lib_inter').flat_ops(ctx, e)
             slots = ops[R.slot_enum[2]]
             chain = []
             x = slots
@@ -1056,7 +1056,7 @@ def r4_5(ctx, R):
                             if any(c[3] is not None and (c[1] or "").endswith("::collect") for c in expr_calls(pe)):
                                 mut_borrows.append(span_of(fb, bb2, s2))
             ctx.ob("R4.5", fb, "collected-slots-never-mutably-borrowed", not mut_borrows, fb.loc(rb), "mutable borrows: %s" % mut_borrows)
-            others = [v for k, v in ops.items() if k != R.slot_enum[2]]
+            others = [v for k, v in ops.items() if k != R.slot_enum[2] and not (v[0] == "agg" and len(v) > 3)]   # nested bookkeeping struct: its fields are listed
             same_len = all(v[0] == "call" and (v[1] or "").endswith("::len") for v in others) and len({v for v in others}) == 1
             ctx.ob("R4.5", fb, "free_head=filled=len(slots)", same_len, fb.loc(rb), ", ".join(expr_str(v) for v in others))
 
